@@ -344,3 +344,18 @@ func init() {
 		r.add("DBGF", "debug", "x", "x", nil, nil, "")
 	})
 }
+
+func init() {
+	register("DBGM", "dump graph mutation call sites", func(c *Ctx, r *Report) {
+		for _, cl := range c.W.callersOf(func(n string) bool {
+			return strings.HasPrefix(n, "(graphs/symboldg.SymbolGraphBuilder).") || strings.HasPrefix(n, "(*graphs/symboldg.SymbolGraph).")
+		}) {
+			n := calleeName(cl)
+			m := n[strings.LastIndex(n, ".")+1:]
+			if strings.HasPrefix(m, "Add") || strings.HasPrefix(m, "Remove") || strings.HasPrefix(m, "add") {
+				fmt.Println("GM", fnShort(cl.Parent()), "|", n)
+			}
+		}
+		r.add("DBGM", "debug", "x", "x", nil, nil, "")
+	})
+}
